@@ -92,7 +92,7 @@ def streams(tier, rng):
         for c in codes[i:i + 64]:
             ops += ['P %d' % c, 'L']
         cases.append(reggen.line(2, ops))
-    yield {'name': 'all-codes', 'cases': cases, 'project': reggen.project, 'oracle': oracle, 'nontrivial': lambda c, o: c}
+    yield {'name': 'all-codes', 'coqcheck': True, 'cases': cases, 'project': reggen.project, 'oracle': oracle, 'nontrivial': lambda c, o: c}
     A = reggen.alphabet3()
     seqs = []
     for a in A:
@@ -101,5 +101,5 @@ def streams(tier, rng):
     n = 1500 if tier == 'quick' else 40000
     seqs += [reggen.line(rng.choice([1, 2, 3]), reggen.random_walk(rng, 40), noerr=(k % 5 == 4)) for k in range(n)]
     seqs.append(reggen.line(2, ['W 1 8', 'P 5', 'L', 'W 6 512', 'W 5 512', 'W 1 128']))
-    yield {'name': 'histories', 'cases': seqs, 'project': reggen.project, 'oracle': oracle,
+    yield {'name': 'histories', 'coqcheck': True, 'cases': seqs, 'project': reggen.project, 'oracle': oracle,
            'nontrivial': lambda c, o: c if (' Q' in o or len(set(tuple(s[1][2:]) for s in reggen.parse_out(o))) > 1) else None}
